@@ -29,7 +29,8 @@ MANIFEST = dict(
 
 CFG = {
     "quick":    dict(mc="MC_CobsDec_q.cfg", gen="Gen_CobsDec.cfg",   maxlen=3, nmsg=60,  nsched=150),
-    "thorough": dict(mc="MC_CobsDec.cfg",   gen="Gen_CobsDec_t.cfg", maxlen=4, nmsg=500, nsched=1500),
+    "thorough": dict(mc="MC_CobsDec.cfg",   gen="Gen_CobsDec_t.cfg", maxlen=4, nmsg=500, nsched=1500,
+                     mc2="MC_CobsDec_t5.cfg"),
 }
 KINDS = enc.KINDS
 ALPHA = [0x00, 0x01, 0x02, 0x1F, 0x20, 0xDE, 0xDF, 0xE0, 0xE1, 0xFE, 0xFF]
@@ -211,6 +212,9 @@ def run(tier):
     ck.add_tlc(res, "exhaustive " + cfg["mc"])
     if tier == "thorough":
         enc.vacuity(ck, res, ["Feed", "Call", "Apply", "Grant"])      # Apply = Peek
+    if cfg.get("mc2"):       # block limit 5 and the wider alphabet at the shorter length
+        res2 = vlib.tlc("MC_CobsDec", cfg["mc2"])
+        ck.add_tlc(res2, "exhaustive " + cfg["mc2"])
 
     # 2. binding A: every transition of the model replayed into the scaled real decoders
     gen = vlib.tlc("Gen_CobsDec", cfg["gen"], workers=6)
@@ -311,8 +315,8 @@ def replay(path):
     for e in evs:
         if e["a"] == "qrun":
             e["a"] = "run"
-    ok, matched, _ = vlib.validate_trace("Trace_CobsDec", evs, tag="Trace_CobsDec_replay")
-    if not ok:
+    rej, _ = enc.tlc_trace("Trace_CobsDec", evs, "Trace_CobsDec_replay")
+    for idx in rej:
         print("VIOLATION property=%s replay=%s  (trace rejected at event %d: %s)" %
-              (PID, path, matched, json.dumps(evs[matched])[:600] if matched < len(evs) else "-"))
-    return 0 if ok else 1
+              (PID, path, idx, json.dumps(evs[idx])[:600]))
+    return 1 if rej else 0
